@@ -51,48 +51,34 @@ func runC03(c *Ctx) {
 	} else {
 		covered := map[rune]string{}
 		var tables []string
-		// global tables indexed inside the escaper
+		// What does the escaper write for rune r? Decided by evaluating its source on the constant r (and on the constant
+		// tables its callers pass): the path of the loop body that r takes either leaves the iteration before anything
+		// is written (the rune is copied through verbatim) or writes a replacement whose value is computed. The form of
+		// the code — switch, if chain, helper function, table lookup — does not matter.
+		var loopBody *ast.BlockStmt
+		var runeObj types.Object
 		ast.Inspect(esc.Body, func(n ast.Node) bool {
-			if ix, ok := n.(*ast.IndexExpr); ok {
-				if id, ok := ix.X.(*ast.Ident); ok {
-					if v, ok := rinfo.Uses[id].(*types.Var); ok && v.Parent() == rp.Types.Scope() {
-						if init := pkgVarInit(rp, id.Name); init != nil {
-							if t, ok := indexedStringTable(rinfo, init); ok {
-								tables = appendUniq(tables, id.Name)
-								for k, val := range t {
-									if val != "" {
-										covered[rune(k)] = val
-									}
-								}
-							}
-						}
+			switch l := n.(type) {
+			case *ast.ForStmt:
+				if containsCallTo(rinfo, l.Body, "unicode/utf8.DecodeRuneInString") && loopBody == nil {
+					loopBody = l.Body
+				}
+			case *ast.RangeStmt:
+				if t := rinfo.TypeOf(l.X); t != nil && isStringType(t) && loopBody == nil {
+					if id, ok := l.Value.(*ast.Ident); ok {
+						loopBody, runeObj = l.Body, rinfo.ObjectOf(id)
 					}
 				}
 			}
 			return true
 		})
-		// tables passed by callers on the in-literal path
-		for _, fd := range allFuncDecls(rp) {
-			ast.Inspect(fd.Body, func(n ast.Node) bool {
-				call, ok := n.(*ast.CallExpr)
-				if !ok {
-					return true
-				}
-				if fn := calleeOf(rinfo, call); fn == nil || rinfo.Defs[esc.Name] != types.Object(fn) {
-					return true
-				}
-				for _, a := range call.Args {
-					if id, ok := a.(*ast.Ident); ok {
-						if init := pkgVarInit(rp, id.Name); init != nil {
-							if t, ok := indexedStringTable(rinfo, init); ok {
-								tables = appendUniq(tables, id.Name)
-								for k, val := range t {
-									if val != "" {
-										if _, dup := covered[rune(k)]; !dup {
-											covered[rune(k)] = val
-										}
-									}
-								}
+		if loopBody != nil && runeObj == nil {
+			ast.Inspect(loopBody, func(n ast.Node) bool {
+				if as, ok := n.(*ast.AssignStmt); ok && len(as.Rhs) == 1 && len(as.Lhs) == 2 {
+					if call, ok := as.Rhs[0].(*ast.CallExpr); ok {
+						if fn := calleeOf(rinfo, call); fn != nil && fullName(fn) == "unicode/utf8.DecodeRuneInString" {
+							if id, ok := as.Lhs[0].(*ast.Ident); ok {
+								runeObj = rinfo.ObjectOf(id)
 							}
 						}
 					}
@@ -100,27 +86,147 @@ func runC03(c *Ctx) {
 				return true
 			})
 		}
-		// explicit switch arms: case r == ' ': repl = ` `
-		ast.Inspect(esc.Body, func(n ast.Node) bool {
-			cc, ok := n.(*ast.CaseClause)
-			if !ok || len(cc.List) != 1 || len(cc.Body) != 1 {
-				return true
-			}
-			be, ok := cc.List[0].(*ast.BinaryExpr)
-			if !ok || be.Op != token.EQL {
-				return true
-			}
-			k, ok := constInt(rinfo, be.Y)
-			if !ok {
-				return true
-			}
-			if as, ok := cc.Body[0].(*ast.AssignStmt); ok && len(as.Rhs) == 1 {
-				if s, ok := constString(rinfo, as.Rhs[0]); ok {
-					covered[rune(k)] = s
+		// the tables callers pass for the slice parameter of the escaper
+		var tblParam types.Object
+		for _, prm := range esc.Type.Params.List {
+			if t := rinfo.TypeOf(prm.Type); t != nil {
+				if sl, ok := t.Underlying().(*types.Slice); ok && isStringType(sl.Elem()) && len(prm.Names) == 1 {
+					tblParam = rinfo.Defs[prm.Names[0]]
 				}
 			}
-			return true
-		})
+		}
+		inits := map[types.Object]ast.Expr{}
+		for _, f := range rp.Syntax {
+			for _, d := range f.Decls {
+				if gd, ok := d.(*ast.GenDecl); ok && gd.Tok == token.VAR {
+					for _, sp := range gd.Specs {
+						vs := sp.(*ast.ValueSpec)
+						for i, nm := range vs.Names {
+							if i < len(vs.Values) {
+								inits[rinfo.Defs[nm]] = vs.Values[i]
+							}
+						}
+					}
+				}
+			}
+		}
+		var callerTables []*ast.CompositeLit
+		if tblParam != nil {
+			pidx := 0
+			k := 0
+			for _, prm := range esc.Type.Params.List {
+				for _, nm := range prm.Names {
+					if rinfo.Defs[nm] == tblParam {
+						pidx = k
+					}
+					k++
+				}
+			}
+			for _, fd := range allFuncDecls(rp) {
+				ast.Inspect(fd.Body, func(n ast.Node) bool {
+					call, ok := n.(*ast.CallExpr)
+					if !ok || pidx >= len(call.Args) {
+						return true
+					}
+					if fn := calleeOf(rinfo, call); fn == nil || rinfo.Defs[esc.Name] != types.Object(fn) {
+						return true
+					}
+					if id, ok := ast.Unparen(call.Args[pidx]).(*ast.Ident); ok {
+						if cl, ok := ast.Unparen(inits[rinfo.ObjectOf(id)]).(*ast.CompositeLit); ok {
+							callerTables = append(callerTables, cl)
+							tables = appendUniq(tables, id.Name)
+						}
+					}
+					return true
+				})
+			}
+		}
+		passes := map[rune]string{}
+		if loopBody == nil || runeObj == nil || (tblParam != nil && len(callerTables) == 0) {
+			c.undec("C03.R1", funcKey(rp, esc)+"|rune-loop", c.pos(esc.Pos()), "the escaper's loop over the runes of its input (or the constant table its callers pass) could not be identified")
+		} else {
+			den := &denum{info: rinfo, pkg: rp.Types, inits: inits, limit: 20000, loopBody: true, opaqueLoops: true}
+			den.finish(den.run(loopBody.List, []dstate{{env: map[types.Object]ast.Expr{}}}))
+			if den.undecided != "" {
+				c.undec("C03.R1", funcKey(rp, esc)+"|rune-loop", c.pos(esc.Pos()), "the escaper's loop body contains "+den.undecided)
+			} else {
+				if len(callerTables) == 0 {
+					callerTables = []*ast.CompositeLit{nil}
+				}
+				probe := func(r rune) (string, string) { // replacement, or why it is copied through / unknown
+					out, why := "", ""
+					for ti, tbl := range callerTables {
+						ce := newCenv(rinfo, rp.Types, allFuncDecls(rp))
+						ce.inits = inits
+						ce.byObj[runeObj] = constant.MakeInt64(int64(r))
+						if tbl != nil {
+							ce.tables[tblParam] = tbl
+						}
+						got, gotWhy := "", "no feasible path"
+						for _, pth := range den.paths {
+							if !ce.feasible(pth) {
+								continue
+							}
+							// the writes of this iteration: builder writes whose operand is not a slice of the input
+							wrote := false
+							for _, st := range pth.Trace {
+								ast.Inspect(st, func(n ast.Node) bool {
+									call, ok := n.(*ast.CallExpr)
+									if !ok || len(call.Args) != 1 {
+										return true
+									}
+									se, ok := call.Fun.(*ast.SelectorExpr)
+									if !ok || !strings.HasPrefix(se.Sel.Name, "Write") {
+										return true
+									}
+									if _, isSlice := ast.Unparen(call.Args[0]).(*ast.SliceExpr); isSlice {
+										return true
+									}
+									if v, ok := ce.eval(call.Args[0], pth.Env); ok && v.Kind() == constant.String {
+										got, wrote = constant.StringVal(v), true
+									} else if v, ok := ce.eval(call.Args[0], pth.Env); ok && v.Kind() == constant.Int {
+										i, _ := constant.Int64Val(v)
+										got, wrote = string(rune(i)), true
+									} else {
+										gotWhy = "the written operand " + types.ExprString(call.Args[0]) + " could not be evaluated"
+									}
+									return true
+								})
+							}
+							if !wrote && gotWhy == "no feasible path" {
+								gotWhy = "the iteration ends without writing a replacement (" + pth.Exit + ")"
+							}
+							break
+						}
+						if got == "" {
+							return "", gotWhy
+						}
+						if ti > 0 && got != out {
+							return "", "the callers' tables disagree"
+						}
+						out, why = got, ""
+					}
+					return out, why
+				}
+				for r := rune(0); r <= 0x1f; r++ {
+					if repl, why := probe(r); why == "" {
+						covered[r] = repl
+					} else {
+						passes[r] = why
+					}
+				}
+				for _, r := range []rune{'"', '\'', '`', '\\', '<', '>', '&', '$', '/', 0x2028, 0x2029} {
+					if repl, why := probe(r); why == "" {
+						covered[r] = repl
+					} else {
+						passes[r] = why
+					}
+				}
+				// positive control: an ordinary letter is copied through
+				_, whyA := probe('a')
+				c.control("C03.R1:evaluator-sees-unescaped-runes", whyA != "")
+			}
+		}
 		c.count("js_escape_table_entries", len(covered))
 		var required []rune
 		for r := rune(0); r <= 0x1f; r++ {
@@ -132,7 +238,7 @@ func runC03(c *Ctx) {
 			key := fmt.Sprintf("%s|js-escape:U+%04X", funcKey(rp, esc), r)
 			repl, has := covered[r]
 			if !has {
-				c.viol("C03.R1", key, c.pos(esc.Pos()), fmt.Sprintf("no replacement for %q (U+%04X) in the tables %v / switch arms of the in-literal escaper: the character reaches the JavaScript string literal verbatim", string(r), r, tables))
+				c.viol("C03.R1", key, c.pos(esc.Pos()), fmt.Sprintf("no replacement for %q (U+%04X) in the in-literal escaper (tables %v): %s — the character reaches the JavaScript string literal verbatim", string(r), r, tables, passes[r]))
 				continue
 			}
 			good := false
@@ -150,18 +256,6 @@ func runC03(c *Ctx) {
 			c.check(good, "C03.R1", key, c.pos(esc.Pos()), fmt.Sprintf("%q → %s", string(r), repl),
 				fmt.Sprintf("the replacement %q for U+%04X is not an escape of that same code point", repl, r))
 		}
-		// the escaper consults the tables before copying the rune through: every case of its switch assigns a replacement, default continues
-		hasDefaultContinue := false
-		ast.Inspect(esc.Body, func(n ast.Node) bool {
-			if cc, ok := n.(*ast.CaseClause); ok && cc.List == nil && len(cc.Body) == 1 {
-				if bs, ok := cc.Body[0].(*ast.BranchStmt); ok && bs.Tok == token.CONTINUE {
-					hasDefaultContinue = true
-				}
-			}
-			return true
-		})
-		c.check(hasDefaultContinue, "C03.R1", funcKey(rp, esc)+"|only-unlisted-runes-pass", c.pos(esc.Pos()), "only runes without a table entry are copied through",
-			"the escaper's rune switch no longer has the shape `case <table hit>: repl = … / default: continue`")
 	}
 
 	// R2 ------------------------------------------------------------
@@ -488,56 +582,79 @@ func runC03(c *Ctx) {
 			}
 			c.check(good, "C03.R4", key, c.pos(call.Pos()), "flag = "+types.ExprString(call.Args[1]),
 				"the parser marks Go code in a script as inside a string literal by "+types.ExprString(call.Args[1])+" instead of `delimiter != none`")
-			// the delimiter state is only changed by the quote test
-			if good {
-				state, _ := be.X.(*ast.Ident)
-				if state != nil {
-					ob := pinfo.ObjectOf(state)
-					okAssign := true
-					quotes := map[string]bool{}
-					ast.Inspect(fd.Body, func(m ast.Node) bool {
-						as, ok := m.(*ast.AssignStmt)
-						if !ok || len(as.Lhs) != 1 {
-							return true
-						}
-						id, ok := as.Lhs[0].(*ast.Ident)
-						if !ok || pinfo.ObjectOf(id) != ob {
-							return true
-						}
-						// must be inside an if whose condition compares a character with the quote constants
-						inside := false
-						ast.Inspect(fd.Body, func(k ast.Node) bool {
-							if is, ok := k.(*ast.IfStmt); ok && is.Body.Pos() <= as.Pos() && as.End() <= is.Body.End() {
-								for _, a := range boolAtomsRaw(is.Cond) {
-									if b2, ok := a.(*ast.BinaryExpr); ok && b2.Op == token.EQL {
-										if s, isC := constString(pinfo, b2.Y); isC && len(s) == 1 && strings.ContainsAny(s, "\"'`") {
-											quotes[s] = true
-											inside = true
-										}
-									}
-								}
-							}
-							return true
-						})
-						if !inside {
-							okAssign = false
-						}
-						return true
-					})
-					var qs []string
-					for q := range quotes {
-						qs = append(qs, q)
-					}
-					sort.Strings(qs)
-					c.check(okAssign && strings.Join(qs, "") == "\"'`", "C03.R4", funcKey(pp, fd)+"|delimiter-tracks-three-quotes", c.pos(fd.Pos()), "the delimiter state changes only on \" ' `",
-						fmt.Sprintf("the string-literal delimiter state is changed outside the quote test, or the quote set is %q rather than \" ' `", strings.Join(qs, "")))
-				}
-			}
 			return true
 		})
 	}
 	if nflag == 0 {
 		c.viol("C03.R4", "anchor-lost:NewScriptContentsGo-call", "", "the script parser no longer calls NewScriptContentsGo")
+	}
+	// the delimiter state follows the three JavaScript quote characters and nothing else: its transition function is
+	// computed from the source for every (character, state) pair of a probe set
+	if qt, why := findQuoteTracker(c); qt == nil || why != "" {
+		k := "quote-tracker"
+		if qt != nil {
+			k = funcKey(pp, qt.fd) + "|delimiter-tracks-three-quotes"
+		}
+		c.undec("C03.R4", k, "", "the script parser's string-literal tracking could not be analysed: "+why)
+	} else {
+		quotes := []string{"\"", "'", "`"}
+		var bad, unknown []string
+		show := func(s string) string {
+			if s == "" {
+				return "none"
+			}
+			return s
+		}
+		for _, q := range quotes {
+			for _, from := range append([]string{""}, quotes...) {
+				got := qt.transitions(qt.charName, q, from)
+				want := map[string]bool{from: true}
+				must := from
+				switch from {
+				case "":
+					want[q], must = true, q
+				case q:
+					want[""], must = true, ""
+				}
+				hasMust := false
+				for _, g := range got {
+					if g == "?" {
+						unknown = append(unknown, fmt.Sprintf("%s in state %s", q, show(from)))
+					} else if !want[g] {
+						bad = append(bad, fmt.Sprintf("reading %s in state %s can leave the state %s", q, show(from), show(g)))
+					}
+					if g == must {
+						hasMust = true
+					}
+				}
+				if !hasMust {
+					bad = append(bad, fmt.Sprintf("reading %s in state %s never leaves the state %s", q, show(from), show(must)))
+				}
+			}
+		}
+		for _, ch := range []string{"a", "\n", "\r", "\\", "/", "{", "$", " ", "<"} {
+			for _, from := range append([]string{""}, quotes...) {
+				for _, g := range qt.transitions(qt.charName, ch, from) {
+					if g == "?" {
+						unknown = append(unknown, fmt.Sprintf("%q in state %s", ch, show(from)))
+					} else if g != from {
+						bad = append(bad, fmt.Sprintf("reading %q in state %s changes the state to %s", ch, show(from), show(g)))
+					}
+				}
+			}
+		}
+		key := funcKey(pp, qt.fd) + "|delimiter-tracks-three-quotes"
+		switch {
+		case len(bad) > 0:
+			if len(bad) > 4 {
+				bad = append(bad[:4], fmt.Sprintf("… (%d more)", len(bad)-4))
+			}
+			c.viol("C03.R4", key, c.pos(qt.fd.Pos()), "the string-literal delimiter state does not follow exactly the quotes \" ' `: "+strings.Join(bad, "; ")+" — Go values after that point are escaped for the wrong context")
+		case len(unknown) > 0:
+			c.undec("C03.R4", key, c.pos(qt.fd.Pos()), "the new delimiter state could not be computed for "+strings.Join(unknown, ", "))
+		default:
+			c.ok("C03.R4", key, c.pos(qt.fd.Pos()), fmt.Sprintf("transition function computed for 12 characters x 4 states (character variable %s, state %s): changes only on \" ' `", qt.charName, qt.stateName))
+		}
 	}
 	if fd := findFunc(pp, "", "NewScriptContentsGo"); fd != nil && len(fd.Type.Params.List) >= 2 {
 		// the flag parameter is stored in InsideStringLiteral
@@ -561,75 +678,74 @@ func runC03(c *Ctx) {
 	scriptEscapeUnit(c, "C03.R4")
 
 	// R5 ------------------------------------------------------------
-	rsp := c.ssaPkg("runtime")
-	var sel *ssa.Function
-	for _, fn := range ssaFuncs(c.prog, rsp) {
-		// the selector: has a bool parameter and calls both json.Marshal and the escaper
-		hasBool := false
-		for _, p := range fn.Params {
-			if p.Type().String() == "bool" {
-				hasBool = true
+	// The two entry points the generator emits: what each returns is found by following their returns through
+	// package-local callees with the constant arguments they pass (path conditions evaluated on those constants), so
+	// the selection may be a bool, an enum, two separate functions …
+	if esc == nil {
+		c.viol("C03.R5", "anchor-lost:script-content-selector", "", "the in-literal escaper was not found, so the routing into it cannot be decided")
+	} else {
+		for _, ent := range []struct {
+			name   string
+			inside bool
+		}{{"ScriptContentInsideStringLiteral", true}, {"ScriptContentOutsideStringLiteral", false}} {
+			fd := findFunc(rp, "", ent.name)
+			if fd == nil {
+				c.viol("C03.R5", "anchor-lost:"+ent.name, "", "runtime."+ent.name+" (emitted by the generator) not found")
+				continue
 			}
-		}
-		if !hasBool {
-			continue
-		}
-		callsJSON := false
-		for _, b := range fn.Blocks {
-			for _, ins := range b.Instrs {
-				if call, ok := ins.(*ssa.Call); ok {
-					if cal := call.Common().StaticCallee(); cal != nil && ssaFuncName(cal) == "encoding/json.Marshal" {
-						callsJSON = true
+			rets, why := followReturns(rp, fd, newCenv(rinfo, rp.Types, allFuncDecls(rp)), 0)
+			key := funcKey(rp, fd) + "|returns"
+			if why != "" {
+				c.undec("C03.R5", key, c.pos(fd.Pos()), ent.name+": "+why)
+				continue
+			}
+			nEsc, nJSON, bad := 0, 0, ""
+			for _, r := range rets {
+				e := ast.Unparen(r.expr)
+				if tv, ok := rinfo.Types[e]; ok && tv.Value != nil {
+					continue // constant (the error paths return "")
+				}
+				viaEsc, viaJSON := false, false
+				if call, ok := e.(*ast.CallExpr); ok {
+					if fn := calleeOf(rinfo, call); fn != nil && types.Object(fn) == rinfo.Defs[esc.Name] {
+						viaEsc = true
 					}
 				}
-			}
-		}
-		if callsJSON {
-			sel = fn
-		}
-	}
-	if sel == nil || esc == nil {
-		c.viol("C03.R5", "anchor-lost:script-content-selector", "", "the runtime selector between the JSON and the in-literal escaper was not found")
-	} else {
-		escName := modPath + "/runtime." + esc.Name.Name
-		var rets [][]leaf
-		for _, b := range sel.Blocks {
-			for _, ins := range b.Instrs {
-				if ret, ok := ins.(*ssa.Return); ok && len(ret.Results) == 2 {
-					rets = append(rets, f.classify(ret.Results[0]))
-				}
-			}
-		}
-		nEsc, nBare := 0, 0
-		bad := ""
-		for _, ls := range rets {
-			txt := leavesString(ls)
-			switch {
-			case hasCallTo(ls, escName):
-				nEsc++
-			case strings.Contains(txt, "encoding/json.Marshal"):
-				nBare++
-			case len(ls) == 1 && ls[0].Kind == "CONST":
-			default:
-				bad = txt
-			}
-		}
-		c.check(bad == "" && nEsc >= 2 && nBare == 1, "C03.R5", ssaFuncName(sel)+"|returns", c.pos(sel.Pos()), fmt.Sprintf("%d in-literal returns through the escaper, %d bare JSON return", nEsc, nBare),
-			fmt.Sprintf("the runtime selector's returns changed (through the escaper: %d, bare JSON: %d, other: %s): a value placed inside a string literal must always go through the replacement table, and only the bare position may return raw JSON", nEsc, nBare, bad))
-		// the in-literal returns are on the insideStringLiteral paths: the escaper calls are control dependent on the bool parameter
-		okDep := true
-		for _, b := range sel.Blocks {
-			for _, ins := range b.Instrs {
-				if call, ok := ins.(*ssa.Call); ok {
-					if cal := call.Common().StaticCallee(); cal != nil && ssaFuncName(cal) == escName {
-						if !blockGuardedByBoolParam(b) {
-							okDep = false
+				// string(<json.Marshal result>)
+				ast.Inspect(e, func(n ast.Node) bool {
+					if id, ok := n.(*ast.Ident); ok {
+						if b, ok := r.env[rinfo.ObjectOf(id)]; ok && containsCallTo(rinfo, b, "encoding/json.Marshal") {
+							viaJSON = true
 						}
 					}
+					return true
+				})
+				if containsCallTo(rinfo, e, "encoding/json.Marshal") {
+					viaJSON = true
+				}
+				switch {
+				case viaEsc:
+					nEsc++
+					if !ent.inside {
+						bad = "returns " + types.ExprString(e) + " through the in-literal escaper although the value is not inside a string literal"
+					}
+				case viaJSON:
+					nJSON++
+					if ent.inside {
+						bad = "returns the bare JSON encoding " + types.ExprString(e) + " for a value placed inside a string literal: quotes, backslashes and line breaks of the value end or corrupt the literal"
+					}
+				default:
+					bad = "returns " + types.ExprString(e) + ", which is neither the escaper's result nor the JSON encoding"
 				}
 			}
+			if bad == "" && ent.inside && nEsc == 0 {
+				bad = "no return goes through the in-literal escaper"
+			}
+			if bad == "" && !ent.inside && nJSON == 0 {
+				bad = "no return is the JSON encoding"
+			}
+			c.check(bad == "", "C03.R5", key, c.pos(fd.Pos()), fmt.Sprintf("%d return(s) through the escaper, %d bare JSON", nEsc, nJSON), ent.name+" "+bad)
 		}
-		c.check(okDep, "C03.R5", ssaFuncName(sel)+"|escaper-on-in-literal-paths", c.pos(sel.Pos()), "every escaper call is on a path that tested the in-literal flag", "an escaper call in the selector is not guarded by the in-literal flag")
 	}
 	jsonScriptBodyOnlyFromEncoder(c, f, "C03.R6")
 	c.floor("C03.R1", 40)
@@ -835,75 +951,41 @@ func scriptEscapeUnit(c *Ctx, rule string) {
 		}
 		return false, types.ExprString(second)
 	}
-	// the character reader: `<c>, ok, err := <X>.Parse(pi)` where <c> is compared with a quote constant
-	found := false
-	for _, fd := range allFuncDecls(pp) {
-		quoteVars := map[types.Object]bool{}
-		ast.Inspect(fd.Body, func(n ast.Node) bool {
-			if be, ok := n.(*ast.BinaryExpr); ok && be.Op == token.EQL {
-				if s, isC := constString(info, be.Y); isC && len(s) == 1 && strings.ContainsAny(s, "\"'`") {
-					if id, ok := be.X.(*ast.Ident); ok {
-						quoteVars[info.ObjectOf(id)] = true
-					}
-				}
-			}
-			return true
-		})
-		if len(quoteVars) == 0 {
-			continue
+	// the character reader: the parser the quote-tracking character is read with (found by findQuoteTracker)
+	qt, why := findQuoteTracker(c)
+	if qt == nil || why != "" || qt.reader == nil {
+		c.undec(rule, "script-character-reader", "", "the parser that reads the characters of a script could not be identified: "+why)
+		return
+	}
+	if _, isPkgVar := inits[info.ObjectOf(rootIdent(qt.reader))]; !isPkgVar {
+		c.undec(rule, funcKey(pp, qt.fd)+"|"+types.ExprString(qt.reader), c.pos(qt.readerPos), "the script character reader "+types.ExprString(qt.reader)+" is not a package-level parser value")
+		return
+	}
+	alts := flatten(qt.reader, 0)
+	iCatch, iEsc := -1, -1
+	narrowed := ""
+	for i, a := range alts {
+		if isParse(a, "AnyRune") && iCatch < 0 {
+			iCatch = i
 		}
-		ast.Inspect(fd.Body, func(n ast.Node) bool {
-			as, ok := n.(*ast.AssignStmt)
-			if !ok || len(as.Rhs) != 1 || len(as.Lhs) < 1 {
-				return true
-			}
-			lid, ok := as.Lhs[0].(*ast.Ident)
-			if !ok || !quoteVars[info.ObjectOf(lid)] {
-				return true
-			}
-			call, ok := as.Rhs[0].(*ast.CallExpr)
-			if !ok {
-				return true
-			}
-			se, ok := call.Fun.(*ast.SelectorExpr)
-			if !ok || se.Sel.Name != "Parse" {
-				return true
-			}
-			if _, isPkgVar := inits[info.ObjectOf(rootIdent(se.X))]; !isPkgVar {
-				return true
-			}
-			found = true
-			alts := flatten(se.X, 0)
-			iCatch, iEsc := -1, -1
-			narrowed := ""
-			for i, a := range alts {
-				if isParse(a, "AnyRune") && iCatch < 0 {
-					iCatch = i
-				}
-				if okb, nar := isBackslashAny(a); okb && iEsc < 0 {
-					iEsc = i
-				} else if nar != "" {
-					narrowed = nar
-				}
-			}
-			key := funcKey(pp, fd) + "|" + types.ExprString(se.X)
-			why := ""
-			switch {
-			case iEsc < 0 && narrowed != "":
-				why = "the backslash escape only accepts `" + narrowed + "` after the backslash: `\\` followed by any other character (for example an escaped backtick or quote that is not in the set) is read as two characters"
-			case iEsc < 0:
-				why = "no alternative reads a backslash together with the following character"
-			case iCatch >= 0 && iCatch < iEsc:
-				why = "the catch-all single-rune alternative comes before the backslash escape, which can then never match"
-			}
-			c.check(why == "", rule, key+"|backslash-consumes-next-rune", c.pos(as.Pos()), fmt.Sprintf("%d alternatives; `\\`+any rune is alternative %d, before the catch-all %d", len(alts), iEsc, iCatch),
-				"script character reader "+types.ExprString(se.X)+": "+why+". An escaped delimiter then ends the literal in the parser's view, and a following {{ value }} is JSON-encoded although the browser is still inside the string / template literal (${…} in the value executes)")
-			return true
-		})
+		if okb, nar := isBackslashAny(a); okb && iEsc < 0 {
+			iEsc = i
+		} else if nar != "" {
+			narrowed = nar
+		}
 	}
-	if !found {
-		c.viol(rule, "anchor-lost:script-character-reader", "", "no `<c>, ok, err := <package-level parser>.Parse(pi)` whose result is compared with the quote characters was found in parser/v2")
+	key := funcKey(pp, qt.fd) + "|" + types.ExprString(qt.reader)
+	why2 := ""
+	switch {
+	case iEsc < 0 && narrowed != "":
+		why2 = "the backslash escape only accepts `" + narrowed + "` after the backslash: `\\` followed by any other character (for example an escaped backtick or quote that is not in the set) is read as two characters"
+	case iEsc < 0:
+		why2 = "no alternative reads a backslash together with the following character"
+	case iCatch >= 0 && iCatch < iEsc:
+		why2 = "the catch-all single-rune alternative comes before the backslash escape, which can then never match"
 	}
+	c.check(why2 == "", rule, key+"|backslash-consumes-next-rune", c.pos(qt.readerPos), fmt.Sprintf("%d alternatives; `\\`+any rune is alternative %d, before the catch-all %d", len(alts), iEsc, iCatch),
+		"script character reader "+types.ExprString(qt.reader)+": "+why2+". An escaped delimiter then ends the literal in the parser's view, and a following {{ value }} is JSON-encoded although the browser is still inside the string / template literal (${…} in the value executes)")
 }
 
 func rootIdent(e ast.Expr) *ast.Ident {
@@ -1071,4 +1153,255 @@ func nameGuarded(fn *ssa.Function, prm *ssa.Parameter, patVar string, depth int)
 		return false, "no pattern test found"
 	}
 	return true, ""
+}
+
+func containsCallTo(info *types.Info, n ast.Node, full string) bool {
+	found := false
+	ast.Inspect(n, func(x ast.Node) bool {
+		if call, ok := x.(*ast.CallExpr); ok {
+			if fn := calleeOf(info, call); fn != nil && fullName(fn) == full {
+				found = true
+			}
+		}
+		return !found
+	})
+	return found
+}
+
+type followedReturn struct {
+	expr ast.Expr
+	env  map[types.Object]ast.Expr
+	in   *ast.FuncDecl
+}
+
+// followReturns lists what fd can return as its first result: its return expressions on the paths that are feasible
+// under the concrete values in ce; a return that is itself a call of a package-local function (other than a
+// recursive one) is followed into that function with the arguments it passes (constants become concrete values).
+func followReturns(p *packages.Package, fd *ast.FuncDecl, ce *cenv, depth int) ([]followedReturn, string) {
+	info := p.TypesInfo
+	if depth > 3 {
+		return nil, "call chain too deep"
+	}
+	den := &denum{info: info, pkg: p.Types, inits: ce.inits, limit: 20000, opaqueLoops: true}
+	den.finish(den.run(fd.Body.List, []dstate{{env: map[types.Object]ast.Expr{}}}))
+	if den.undecided != "" {
+		return nil, fd.Name.Name + " contains " + den.undecided
+	}
+	var out []followedReturn
+	for _, pth := range den.paths {
+		if !ce.feasible(pth) {
+			continue
+		}
+		if pth.Ret == nil || len(pth.Ret.Results) == 0 {
+			return nil, fd.Name.Name + " has a path without an explicit return value"
+		}
+		e := ast.Unparen(pth.Ret.Results[0])
+		if call, ok := e.(*ast.CallExpr); ok && len(pth.Ret.Results) == 1 {
+			if fn := calleeOf(info, call); fn != nil {
+				if callee := ce.decls[fn]; callee != nil && callee != fd && callee.Body != nil {
+					// does the callee return as many values as fd (a forwarding return)?
+					sub := ce.child()
+					i := 0
+					for _, prm := range callee.Type.Params.List {
+						for _, nm := range prm.Names {
+							if i < len(call.Args) {
+								if v, ok := ce.eval(call.Args[i], pth.Env); ok {
+									sub.byObj[info.Defs[nm]] = v
+								}
+							}
+							i++
+						}
+					}
+					rs, why := followReturns(p, callee, sub, depth+1)
+					if why != "" {
+						return nil, why
+					}
+					out = append(out, rs...)
+					continue
+				}
+			}
+		}
+		out = append(out, followedReturn{expr: e, env: pth.Env, in: fd})
+	}
+	return out, ""
+}
+
+// quoteTracker: the part of the script parser that keeps track of being inside a JavaScript string literal, found
+// by what it does: the function that passes `state != none` (an expression over a variable of a named string type) to
+// NewScriptContentsGo, the innermost loop in which that variable is assigned, and — among the string variables read
+// from a parser in that loop — the one for which a `"` makes the state change (decided by evaluating the loop body's
+// path conditions on constants).
+type quoteTracker struct {
+	fd        *ast.FuncDecl
+	stateName string
+	charName  string
+	reader    ast.Expr // the parser expression the character is read with
+	readerPos token.Pos
+	den       *denum
+	info      *types.Info
+	pkg       *packages.Package
+	flagArg   ast.Expr
+	flagPos   token.Pos
+}
+
+func findQuoteTracker(c *Ctx) (*quoteTracker, string) {
+	pp := c.pkg("parser/v2")
+	info := pp.TypesInfo
+	for _, fd := range allFuncDecls(pp) {
+		var flag ast.Expr
+		var flagPos token.Pos
+		ast.Inspect(fd.Body, func(x ast.Node) bool {
+			if call, ok := x.(*ast.CallExpr); ok {
+				if fn := calleeOf(info, call); fn != nil && fn.Name() == "NewScriptContentsGo" && len(call.Args) == 2 {
+					flag, flagPos = call.Args[1], call.Pos()
+				}
+			}
+			return true
+		})
+		if flag == nil {
+			continue
+		}
+		qt := &quoteTracker{fd: fd, info: info, pkg: pp, flagArg: flag, flagPos: flagPos}
+		var stateObj types.Object
+		ast.Inspect(flag, func(x ast.Node) bool {
+			if id, ok := x.(*ast.Ident); ok && stateObj == nil {
+				if v, isVar := info.ObjectOf(id).(*types.Var); isVar {
+					if nt, isNamed := v.Type().(*types.Named); isNamed && isStringType(nt.Underlying()) {
+						stateObj, qt.stateName = v, id.Name
+					}
+				}
+			}
+			return true
+		})
+		if stateObj == nil {
+			return qt, "the in-literal flag passed to NewScriptContentsGo (" + types.ExprString(flag) + ") is not computed from a delimiter variable of a named string type"
+		}
+		// innermost loop assigning the state
+		var loopBody *ast.BlockStmt
+		var visit func(n ast.Node)
+		visit = func(n ast.Node) {
+			ast.Inspect(n, func(x ast.Node) bool {
+				var body *ast.BlockStmt
+				switch l := x.(type) {
+				case *ast.ForStmt:
+					body = l.Body
+				case *ast.RangeStmt:
+					body = l.Body
+				}
+				if body != nil && x != n {
+					assigns := false
+					ast.Inspect(body, func(y ast.Node) bool {
+						if as, ok := y.(*ast.AssignStmt); ok {
+							for _, l := range as.Lhs {
+								if id, ok := l.(*ast.Ident); ok && info.ObjectOf(id) == stateObj {
+									assigns = true
+								}
+							}
+						}
+						return true
+					})
+					if assigns {
+						loopBody = body
+						visit(x)
+					}
+					return false
+				}
+				return true
+			})
+		}
+		visit(fd.Body)
+		if loopBody == nil {
+			return qt, "the delimiter state " + qt.stateName + " is never assigned inside a loop"
+		}
+		qt.den = &denum{info: info, pkg: pp.Types, inits: map[types.Object]ast.Expr{}, limit: 50000, loopBody: true, opaqueLoops: true}
+		qt.den.finish(qt.den.run(loopBody.List, []dstate{{env: map[types.Object]ast.Expr{}}}))
+		if qt.den.undecided != "" {
+			return qt, "the loop that tracks the delimiter contains " + qt.den.undecided
+		}
+		// candidates for the character variable
+		type cand struct {
+			name   string
+			reader ast.Expr
+			pos    token.Pos
+		}
+		var cands []cand
+		ast.Inspect(loopBody, func(x ast.Node) bool {
+			as, ok := x.(*ast.AssignStmt)
+			if !ok || len(as.Rhs) != 1 || len(as.Lhs) < 1 {
+				return true
+			}
+			call, ok := as.Rhs[0].(*ast.CallExpr)
+			if !ok {
+				return true
+			}
+			se, ok := call.Fun.(*ast.SelectorExpr)
+			if !ok || se.Sel.Name != "Parse" {
+				return true
+			}
+			if id, ok := as.Lhs[0].(*ast.Ident); ok && id.Name != "_" {
+				if t := info.TypeOf(id); t != nil && isStringType(t) {
+					cands = append(cands, cand{id.Name, se.X, as.Pos()})
+				}
+			}
+			return true
+		})
+		for _, cd := range cands {
+			for _, to := range qt.transitions(cd.name, "\"", "") {
+				if to == "\"" {
+					qt.charName, qt.reader, qt.readerPos = cd.name, cd.reader, cd.pos
+				}
+			}
+			if qt.charName != "" {
+				break
+			}
+		}
+		if qt.charName == "" {
+			return qt, fmt.Sprintf("none of the %d strings read from a parser in the loop makes the delimiter state change from none to `\"` when it is `\"`", len(cands))
+		}
+		return qt, ""
+	}
+	return nil, "no function of parser/v2 passes an in-literal flag to NewScriptContentsGo"
+}
+
+// transitions: the values the delimiter state can have at the end of one iteration that started in state `from` and
+// read the character ch (one entry per feasible path; conditions that do not depend on the two are free).
+func (qt *quoteTracker) transitions(charName, ch, from string) []string {
+	ce := newCenv(qt.info, qt.pkg.Types, allFuncDecls(qt.pkg))
+	ce.byText[charName] = constant.MakeString(ch)
+	ce.byText[qt.stateName] = constant.MakeString(from)
+	seen := map[string]bool{}
+	var out []string
+	for _, pth := range qt.den.paths {
+		if !ce.feasible(pth) {
+			continue
+		}
+		final, known := from, true
+		for _, st := range pth.Trace {
+			as, ok := st.(*ast.AssignStmt)
+			if !ok {
+				continue
+			}
+			for i, l := range as.Lhs {
+				if id, ok := l.(*ast.Ident); ok && id.Name == qt.stateName && i < len(as.Rhs) {
+					// the right-hand side is evaluated in the state before the assignment
+					ce.byText[qt.stateName] = constant.MakeString(final)
+					if v, ok := ce.eval(as.Rhs[i], pth.Env); ok && v.Kind() == constant.String {
+						final = constant.StringVal(v)
+					} else {
+						known = false
+					}
+				}
+			}
+		}
+		ce.byText[qt.stateName] = constant.MakeString(from)
+		if !known {
+			final = "?"
+		}
+		if !seen[final] {
+			seen[final] = true
+			out = append(out, final)
+		}
+	}
+	sort.Strings(out)
+	return out
 }
